@@ -2,8 +2,28 @@
    ONLY statements: each theorem is closed by `exact` of a lemma proved elsewhere and followed by Print Assumptions. *)
 From Coq Require Import ZArith NArith List Bool Lia Permutation.
 Import ListNotations.
-Require Import Num NumProofs Base Lex ParseProofs Strings Builtins Interp LinkNames.
+Require Import Base Num NumProofs Lex PadToken ParseProofs Strings Builtins Interp LinkNames.
 Open Scope Z_scope.
+(* ANY word (not only the encoder's spellings) padded by two zero digits reads as the same number - or is refused just the same *)
+Theorem parse_number_two_zeros w :
+  parse_number (w ++ [G; G]) = parse_number w.
+Proof. exact (PadToken.parse_number_two_zeros w). Qed.
+Print Assumptions parse_number_two_zeros.
+
+(* ... and is the same TOKEN for the parser wherever a literal is used: a value, the arity of a call word, the position of an argument reference (the bare markers excepted: padding them makes ㅎ+0 / ㅇ+0) *)
+Theorem padded_word_same_token c rest m stk :
+  ((c =? HIEUH) || (c =? IEUNG) = true -> rest <> []) ->
+  parse_token ((c :: rest) ++ [G; G], m) stk = parse_token (c :: rest, m) stk.
+Proof. exact (PadToken.padded_word_same_token c rest m stk). Qed.
+Print Assumptions padded_word_same_token.
+
+(* ... so padding one word anywhere in a text leaves the parser's result unchanged - the trees, or the rejection *)
+Theorem padded_word_same_trees c rest m :
+  ((c =? HIEUH) || (c =? IEUNG) = true -> rest <> []) ->
+  forall ts1 ts2 stk, parse_tokens (ts1 ++ ((c :: rest) ++ [G; G], m) :: ts2) stk = parse_tokens (ts1 ++ (c :: rest, m) :: ts2) stk.
+Proof. exact (PadToken.padded_word_same_trees c rest m). Qed.
+Print Assumptions padded_word_same_trees.
+
 (* decoding inverts encoding, for every integer of any size *)
 Theorem decode_encode  :
   forall n, decode (encode n) = n.
